@@ -51,7 +51,12 @@ S(x) == [s |-> x]
 B(x) == [b |-> x]
 Has(r, f) == f \in DOMAIN r
 C(n) == [c |-> n]                           \* xs:decimal with integral value n (1.0)
-NumOf(x) == IF Has(x, "i") THEN x.i ELSE IF Has(x, "c") THEN x.c ELSE x.d
+F(n) == [f |-> n]                           \* xs:float with integral value n
+Inf(sg) == [inf |-> sg]                     \* xs:double INF (sg = 1) / -INF (sg = -1)
+FInf(sg) == [finf |-> sg]                   \* xs:float INF / -INF
+NaN == [nan |-> TRUE]                       \* xs:double NaN
+FNaN == [fnan |-> TRUE]                     \* xs:float NaN
+NumOf(x) == IF Has(x, "i") THEN x.i ELSE IF Has(x, "c") THEN x.c ELSE IF Has(x, "f") THEN x.f ELSE x.d
 AbsI(n) == IF n < 0 THEN -n ELSE n
 RECURSIVE Pow(_, _)
 Pow(a, n) == IF n = 0 THEN 1 ELSE a * Pow(a, n - 1)
@@ -73,9 +78,13 @@ Cat(a, b)     == [k |-> "seq", a |-> a, b |-> b]                  \* (a, b)
 If(c, a, b)   == [k |-> "if", c |-> c, a |-> a, b |-> b]
 AnyType == "item()*"
 (* function($p as T, ..){body}; Fun = every parameter undeclared, i.e. AnyType *)
-TFun(site, ps, ts, body) == [k |-> "fun", site |-> site, params |-> ps, types |-> ts, body |-> body]
+(* function($p as T, ..) as R {body}: the DECLARED RESULT TYPE R (XPath 3.1 3.1.7: "the result of the function body
+   is converted to the declared return type by applying the function conversion rules") *)
+RFun(site, ps, ts, rt, body) == [k |-> "fun", site |-> site, params |-> ps, types |-> ts, rtype |-> rt, body |-> body]
+TFun(site, ps, ts, body) == RFun(site, ps, ts, AnyType, body)
 Fun(site, ps, body) == TFun(site, ps, [j \in 1..Len(ps) |-> AnyType], body)
 Ref(name, n)  == [k |-> "ref", name |-> name, arity |-> n]        \* name#n
+Lookup(name, n) == [k |-> "lookup", name |-> name, arity |-> n]   \* function-lookup(xs:QName("fn:name"), n)
 Hole          == [k |-> "hole"]                                    \* ? placeholder
 Call(f, args) == [k |-> "call", f |-> f, args |-> args]           \* f(args): dynamic call / partial application
 SCall(site, name, args) == [k |-> "scall", site |-> site, name |-> name, args |-> args]  \* name(args): static
@@ -88,9 +97,11 @@ StrLit(x)     == [k |-> "str", v |-> x]                           \* "x"
 DLit(n)       == [k |-> "dlit", v |-> n]                          \* ne0  (xs:double literal)
 InstOf(e, t)  == [k |-> "instof", e |-> e, t |-> t]               \* e instance of t
 Map(a, r)     == [k |-> "map", s |-> a, r |-> r]                  \* a ! r   (r evaluated with the focus on each item)
+PStep(a, r)   == [k |-> "step", s |-> a, r |-> r]                 \* a/r     (path step: the same focus rule; r yields no node here)
 MapLit(ks, vs) == [k |-> "maplit", ks |-> ks, vs |-> vs]           \* map { k1: v1, ... } with integer keys (3.1)
 BLit(x)       == [k |-> "blit", v |-> x]                          \* true() / false()
 NaNLit        == [k |-> "nanlit"]                                 \* xs:double("NaN")
+InfLit(sg)    == [k |-> "inflit", v |-> sg]                       \* xs:double("INF") / xs:double("-INF")
 NZLit         == [k |-> "nzlit"]                                  \* -0e0  (negative zero: equal to 0e0 as a sort key)
 Some(v, a, c) == [k |-> "some", v |-> v, s |-> a, c |-> c]        \* some $v in a satisfies c
 MapK(e)       == [k |-> "mapk", e |-> e]                          \* map{"k": e}?k   (3.1)
@@ -133,11 +144,14 @@ TypeMatch(x, t) ==
   CASE t = AnyType -> TRUE
     [] t = "xs:integer" -> Has(x, "i")
     [] t = "xs:decimal" -> Has(x, "i") \/ Has(x, "c")
-    [] t = "xs:double" -> Has(x, "d")
+    [] t = "xs:double" -> Has(x, "d") \/ Has(x, "inf") \/ Has(x, "nan")
+    [] t = "xs:float" -> Has(x, "f") \/ Has(x, "finf") \/ Has(x, "fnan")
     [] t = "xs:boolean" -> Has(x, "b")
     [] t = "xs:string" -> Has(x, "s")
-Convert(v, t) == IF t = "xs:double" /\ Len(v) = 1 /\ (Has(v[1], "i") \/ Has(v[1], "c"))
-                 THEN <<D(NumOf(v[1]))>> ELSE v
+DoubleTypes == {"xs:double", "xs:double+", "xs:double*"}
+Convert(v, t) == IF t \in DoubleTypes
+                 THEN [j \in 1..Len(v) |-> IF Has(v[j], "i") \/ Has(v[j], "c") THEN D(NumOf(v[j])) ELSE v[j]]
+                 ELSE v
 ConvertAll(args, ts) == [j \in 1..Len(args) |-> Convert(args[j], ts[j])]
 RECURSIVE ParamTypes(_)
 ParamTypes(f) == CASE f.fn = "inline" -> f.types
@@ -211,7 +225,9 @@ StrRank(x) == CASE x = "0" -> 0 [] x = "1" -> 1 [] x = "false" -> 2 [] x = "true
 (* for fn:sort NaN keys are equal to each other and less than any other number; an empty key is less than
    a non-empty one (F&O 3.1 16.1 fn:sort); -0e0 = 0e0; 1 = 1.0 = 1e0 *)
 KeyVal(k) == IF k = <<>> THEN -2000000000
-             ELSE IF Has(k[1], "nan") THEN -1000000000
+             ELSE IF Has(k[1], "nan") \/ Has(k[1], "fnan") THEN -1000000000
+             ELSE IF Has(k[1], "inf") THEN k[1].inf * 900000000          \* -INF < every finite number < INF
+             ELSE IF Has(k[1], "finf") THEN k[1].finf * 900000000        \* xs:float INF = xs:double INF
              ELSE IF Has(k[1], "b") THEN (IF k[1].b THEN 1 ELSE 0)
              ELSE IF Has(k[1], "s") THEN StrRank(k[1].s) ELSE NumOf(k[1])
 KeyLe(a, b) == KeyVal(a) <= KeyVal(b)
@@ -258,7 +274,7 @@ ApplyNamed(name, args) ==
 
 Apply(f, args) ==
   IF IsMapOrArray(f) THEN LookupMA(f, args[1]) ELSE
-  CASE f.fn = "inline" -> Eval(f.body, Bind(f.env, CanonSeq(f.params), ConvertAll(args, f.types)))
+  CASE f.fn = "inline" -> Convert(Eval(f.body, Bind(f.env, CanonSeq(f.params), ConvertAll(args, f.types))), f.rtype)
     [] f.fn = "named" -> IF Has(f, "focus") THEN ApplyFocus(f.name, f.focus) ELSE ApplyNamed(f.name, args)
     [] f.fn = "partial" -> Apply(f.base, Fill(f.mask, args))
 
@@ -282,14 +298,16 @@ Eval(e, env) ==
     [] e.k = "maplit" -> <<[map |-> [ks |-> e.ks, vs |-> EvalArgs(e.vs, env)]]>>
     [] e.k = "blit" -> <<B(e.v)>>
     [] e.k = "nanlit" -> <<[nan |-> TRUE]>>
+    [] e.k = "inflit" -> <<Inf(e.v)>>
     [] e.k = "nzlit" -> <<D(0)>>
     [] e.k = "some" -> LET s == Eval(e.s, env) IN
                        <<B(\E j \in 1..Len(s) : EBV(Eval(e.c, Ext(env, Canon(e.v), <<s[j]>>))))>>
-    [] e.k = "map" ->
+    [] e.k \in {"map", "step"} ->
          LET s == Eval(e.s, env) IN
          Flatten([j \in 1..Len(s) |-> Eval(e.r, WithFocus(env, s[j], j, Len(s)))])
-    [] e.k = "fun" -> <<[fn |-> "inline", params |-> e.params, types |-> e.types, body |-> e.body, env |-> env]>>
-    [] e.k = "ref" ->
+    [] e.k = "fun" -> <<[fn |-> "inline", params |-> e.params, types |-> e.types, rtype |-> e.rtype, body |-> e.body,
+                         env |-> env]>>
+    [] e.k \in {"ref", "lookup"} ->      \* F&O 3.1 16.1.1 fn:function-lookup: the focus of the CALL of function-lookup is bound
          IF e.arity = 0 /\ e.name \in FocusNames
          THEN <<[fn |-> "named", name |-> e.name, arity |-> 0, focus |-> FocusOf(env)]>>
          ELSE <<[fn |-> "named", name |-> e.name, arity |-> e.arity]>>
@@ -401,6 +419,7 @@ FillSlotsI(slots, args, q, m) ==
                 rest == FillSlotsI(Tail(slots), args, q, r.m) IN
             [vs |-> <<r.v>> \o rest.vs, m |-> rest.m]
 
+ResultI(v, t) == IF IsPoison(v) THEN v ELSE Convert(v, t)
 CallI(f, args, m) ==
   IF AnyPoison(args) THEN R(PoisonOf(FirstPoison(args)), m)
   ELSE CASE f.fn = "tok" ->
@@ -408,12 +427,12 @@ CallI(f, args, m) ==
          \* D.update(item.variables); D[param] = arg; the caller's dict is untouched
          LET d2 == Bind(Update(m.d, f.vars), StoreSeqI(f.params), ConvertAll(args, f.types))
              r == EvalI(f.body, [m EXCEPT !.d = d2]) IN
-         R(r.v, [r.m EXCEPT !.d = m.d])
+         R(ResultI(r.v, f.rtype), [r.m EXCEPT !.d = m.d])          \* return self.validated_result(result)
     [] f.fn = "ptok" ->
          LET m1 == [m EXCEPT !.d = Update(m.d, f.vars)]
              m2 == BindSlotsI(f.params, f.types, f.slots, args, 1, m1) IN
          IF "_escaped" \in DOMAIN m2.d THEN R(m2.d["_escaped"], [m2 EXCEPT !.d = m.d])
-         ELSE LET r == EvalI(f.body, m2) IN R(r.v, [r.m EXCEPT !.d = m.d])
+         ELSE LET r == EvalI(f.body, m2) IN R(ResultI(r.v, f.rtype), [r.m EXCEPT !.d = m.d])
     [] f.fn = "inst" -> IF Has(f, "focus") THEN R(ApplyFocus(f.name, f.focus), m) ELSE ApplyNamedI(f.name, args, m)
     [] f.fn \in {"pinst", "pstat"} ->
          LET r == FillSlotsI(f.slots, args, 1, m) IN ApplyNamedI(f.name, r.vs, r.m)
@@ -435,6 +454,7 @@ EvalI(e, m) ==
   CASE e.k = "lit" -> R(<<I(e.v)>>, m)
     [] e.k = "str" -> R(<<S(e.v)>>, m)
     [] e.k = "dlit" -> R(<<D(e.v)>>, m)
+    [] e.k = "inflit" -> R(<<Inf(e.v)>>, m)
     [] e.k = "instof" -> LET r == EvalI(e.e, m) IN
                          IF IsPoison(r.v) THEN R(PoisonOf(r.v), r.m)
                          ELSE R(<<B(Len(r.v) = 1 /\ TypeMatch(r.v[1], e.t))>>, r.m)
@@ -443,7 +463,7 @@ EvalI(e, m) ==
     [] e.k = "some" -> LET s == EvalI(e.s, m) IN SomeI(e, s.v, s.m)
     [] e.k = "arr" -> LET a == EvalSeqI(e.es, m) IN
                       IF AnyPoison(a.vs) THEN R(PoisonOf(FirstPoison(a.vs)), a.m) ELSE R(<<[arr |-> a.vs]>>, a.m)
-    [] e.k = "map" -> LET s == EvalI(e.s, m)
+    [] e.k \in {"map", "step"} -> LET s == EvalI(e.s, m)
                           r == MapI(e, s.v, 1, <<>>, s.m) IN R(r.v, [r.m EXCEPT !.d = m.d])
     [] e.k = "lits" -> R([j \in 1..Len(e.ns) |-> I(e.ns[j])], m)
     [] e.k = "empty" -> R(<<>>, m)
@@ -461,9 +481,10 @@ EvalI(e, m) ==
                      IF IsPoison(c.v) THEN R(PoisonOf(c.v), c.m)
                      ELSE IF EBV(c.v) THEN EvalI(e.a, c.m) ELSE EvalI(e.b, c.m)
     [] e.k = "fun" ->      \* func = copy(self); func.variables = context.variables.copy(); return func
-         R(<<[fn |-> "tok", site |-> e.site, params |-> e.params, types |-> e.types, body |-> e.body, vars |-> m.d]>>, m)
-    [] e.k = "ref" ->      \* func = token_class(parser, nargs=arity): a fresh instance per evaluation;
-                           \* func.context = copy(context): the focus of THIS evaluation
+         R(<<[fn |-> "tok", site |-> e.site, params |-> e.params, types |-> e.types, rtype |-> e.rtype, body |-> e.body,
+              vars |-> m.d]>>, m)
+    [] e.k \in {"ref", "lookup"} ->   \* func = token_class(parser, nargs=arity): a fresh instance per evaluation;
+                           \* func.context = copy(context): the focus of THIS evaluation (function-lookup: the same)
          IF e.arity = 0 /\ e.name \in FocusNames
          THEN R(<<[fn |-> "inst", name |-> e.name, arity |-> 0, focus |-> FocusOf(m.d)]>>, m)
          ELSE R(<<[fn |-> "inst", name |-> e.name, arity |-> e.arity]>>, m)
@@ -476,7 +497,7 @@ EvalI(e, m) ==
                 LET a == EvalMaskI(e.args, fr.m) IN
                 IF SlotPoison(a.slots) THEN R(Poison("XPST0008"), a.m)
                 ELSE IF f.fn \in {"tok", "ptok"}
-                THEN R(<<[fn |-> "ptok", site |-> f.site, params |-> f.params, types |-> f.types, body |-> f.body,
+                THEN R(<<[fn |-> "ptok", site |-> f.site, params |-> f.params, types |-> f.types, rtype |-> f.rtype, body |-> f.body,
                           vars |-> f.vars, slots |-> a.slots]>>, a.m)
                 ELSE R(<<[fn |-> "pinst", name |-> f.name, slots |-> a.slots]>>, a.m)
            ELSE LET a == EvalSeqI(e.args, fr.m) IN CallI(f, a.vs, a.m)
